@@ -5,7 +5,7 @@ R27 SLOT-IDENTITY          nobody re-seats a shared slot (Rc field) of an existi
 
 from . import facts as F
 from .core import Ctx
-from .facts import ARRAY, callee, resolved, strip, peel, walk, walk_ctx, loc, field_chain, var_of, lit_value
+from .facts import ARRAY, callee, resolved, strip, peel, walk, walk_ctx, loc, field_chain, var_of, lit_value, rel, pat_bindings
 from .repr_rules import MUTATING, self_var, param_vars
 from .pass_rules import engine_bodies, closure_tail
 from .inline import engine_view
@@ -98,6 +98,28 @@ def r26_engine_control(facts):
     c.floor("engine bodies", len(eng), 2)
     n_cond = 0
     for name, root_body in eng.items():
+        # plain (non-array) locals computed from array values: `let is_live = delta.values.iter().any(..)`
+        derived = {}
+        for _ in range(3):
+            for b in facts.nested(root_body):
+                for n in walk(facts.root(b)):
+                    if n.get("k") != "Block":
+                        continue
+                    for s_ in n["stmts"]:
+                        if s_["s"] != "let" or s_.get("init") is None or s_["pat"].get("k") != "Binding":
+                            continue
+                        ty = s_["pat"].get("ty") or ""
+                        if ARRAY in ty:
+                            continue
+                        v = s_["pat"]["v"]
+                        if v in derived:
+                            continue
+                        rd = _value_reads(facts, s_["init"])
+                        via = [x for x in walk(s_["init"]) if x.get("k") in ("VarRef", "UpvarRef") and x["v"] in derived]
+                        if rd:
+                            derived[v] = rd[0]
+                        elif via:
+                            derived[v] = derived[via[0]["v"]]
         for b in facts.nested(root_body):
             for n, ctx in walk_ctx(facts.root(b)):
                 conds = []
@@ -115,6 +137,8 @@ def r26_engine_control(facts):
                 for kind, e in conds:
                     n_cond += 1
                     reads = _value_reads(facts, e)
+                    if not reads:
+                        reads = [derived[x["v"]] for x in walk(e) if x.get("k") in ("VarRef", "UpvarRef") and x["v"] in derived]
                     inst = "cond:%s#%s" % (b["def"], kind)
                     if reads:
                         c.bad(inst, loc(b, e), "a %s condition in the backward engine reads array values (%s): which nodes are processed / which "
@@ -820,4 +844,99 @@ def r44_stateless_derivative(facts):
         else:
             c.ok("closure:%s" % cb["def"], where, "captured cell(s) %s never receive anything computed from the adjoint" % ", ".join(cap["var"] for cap in cells))
     c.floor("derivative closures", n, 17)
+    return c
+
+
+# ------------------------------------------------------------------ R46
+
+def r46_update_formula(facts):
+    """UPDATE-FORMULA: the element-wise store in Optimizer::update computes old - rate * gradient with `rate` a field of the optimizer, and every constructor of the optimizer stores its rate argument in that field as given"""
+    from .deriv_rules import Forward, Env, Abstain
+    from .symalg import Unsupported, Frac
+    c = Ctx("R46", facts, "gradient descent: new value = old - learning rate x gradient; the rate is the constructor's argument as given")
+    fl = facts.float or "f64"
+    impls = [b for b in facts.fns() if b.get("impl_trait_def") == "corgi::optimizer::Optimizer" and b.get("name") == "update"]
+    c.floor("Optimizer::update implementations", len(impls), 1)
+    for u in impls:
+        where0 = "%s:%d" % (rel(u["file"]), u["sp"][0])
+        stores = []
+        for nb in _update_bodies(facts, u):
+            for n in walk(facts.root(nb)):
+                if n.get("k") in ("Assign", "AssignOp"):
+                    l = strip(n["l"])
+                    if l.get("k") == "Deref" and (l.get("ty") or "") == fl and var_of(l["e"]):
+                        stores.append((nb, n, var_of(l["e"])))
+        inst = "formula:%s" % u["def"]
+        if len(stores) != 1:
+            c.unk(inst, where0, "expected one element-wise store `*x -= ..` through a `&mut Float` in update, found %d" % len(stores))
+            continue
+        nb, n, xv = stores[0]
+        fw = Forward(facts)
+        fw.ev.uninterp = True
+        env = Env(None)
+        gvars = []
+        for p in facts.params(nb):
+            if not p.get("pat"):
+                continue
+            for v, _, ty, _ in pat_bindings(p["pat"]):
+                if v == xv:
+                    env[v] = ("s", fw.alg.atom("old"))
+                elif (ty or "").replace("&", "").replace("mut ", "").strip() == fl:
+                    env[v] = ("s", fw.alg.atom("g"))
+                    gvars.append(v)
+        # captured `self`: fields become `f:<name>` atoms
+        try:
+            rhs = fw.ev.ev(n["r"], env)
+            if rhs[0] != "s":
+                raise Abstain(str(rhs[1])[:100] if rhs[0] == "unk" else rhs[0])
+            old = fw.alg.atom("old")
+            if n["k"] == "AssignOp":
+                op = str(n.get("op")).replace("Assign", "")
+                if op == "Sub":
+                    new = old - rhs[1]
+                elif op == "Add":
+                    new = old + rhs[1]
+                elif op == "Mul":
+                    new = old * rhs[1]
+                else:
+                    raise Abstain("`%s=`" % op)
+            else:
+                new = rhs[1]
+            rates = sorted(a for a in new.atoms() if a.startswith("f:"))
+            if len(gvars) != 1 or len(rates) != 1:
+                raise Abstain("the store does not combine one gradient element with one field of the optimizer (%s; %s)" % (gvars, rates))
+            want = old - fw.alg.atom(rates[0]) * fw.alg.atom("g")
+            if new.equals(want):
+                c.ok(inst, loc(nb, n), "each element becomes old - %s x gradient" % rates[0][2:])
+            else:
+                c.bad(inst, loc(nb, n), "the update stores %r for each element; gradient descent is %r" % (new, want))
+        except (Abstain, Unsupported, RecursionError) as ex:
+            c.unk(inst, loc(nb, n), "the element-wise store is outside the algebra (%s)" % ex)
+            continue
+        # the constructors of this optimizer
+        adt = u.get("impl_self")
+        fname = rates[0][2:]
+        n_ctor = 0
+        for b in facts.bodies:
+            root = facts.root(b)
+            if root is None:
+                continue
+            pvars = {v for p in facts.params(b) if p.get("pat") for v, _, _, _ in pat_bindings(p["pat"])}
+            for x in walk(root):
+                if x.get("k") == "Adt" and x.get("adt") == adt:
+                    for f_ in x.get("fields") or []:
+                        if f_.get("name") != fname:
+                            continue
+                        n_ctor += 1
+                        e = strip(f_["e"])
+                        cinst = "rate:%s" % b["def"]
+                        if e.get("k") in ("VarRef", "UpvarRef") and e["v"] in pvars:
+                            c.ok(cinst, loc(b, f_["e"]), "the rate field is the constructor's argument as given")
+                        elif any(y.get("k") in ("VarRef", "UpvarRef") and y["v"] in pvars for y in walk(e)):
+                            c.bad(cinst, loc(b, f_["e"]), "the constructor stores `%s`, not its rate argument as given: update then steps by a different rate than the one requested "
+                                  "(e.g. a negative rate loses its sign)" % show(e)[:60])
+                        else:
+                            c.unk(cinst, loc(b, f_["e"]), "where the stored rate `%s` comes from is not recognised" % show(e)[:60])
+        if not n_ctor:
+            c.unk("rate:%s" % adt, where0, "no construction of %s found in the crate" % adt)
     return c
